@@ -371,25 +371,7 @@ open Glom
 
 /-! ### nested result lists: leaves and uniform depth -/
 
-mutual
-def Nest.leaves : Nest → List Val
-  | .leaf v => [v]
-  | .node xs => leavesL xs
-def leavesL : List Nest → List Val
-  | [] => []
-  | x :: xs => x.leaves ++ leavesL xs
-end
-
-mutual
-/-- every leaf sits below exactly `n` list levels -/
-def Nest.uniform : Nat → Nest → Bool
-  | 0, .leaf _ => true
-  | n + 1, .node xs => uniformL n xs
-  | _, _ => false
-def uniformL : Nat → List Nest → Bool
-  | _, [] => true
-  | n, x :: xs => x.uniform n && uniformL n xs
-end
+/- (`Nest.leaves` / `leavesL` / `Nest.uniform` / `uniformL` are defined with the model: the checker uses them) -/
 
 theorem leavesL_append (a b : List Nest) : leavesL (a ++ b) = leavesL a ++ leavesL b := by
   induction a with
